@@ -63,7 +63,7 @@ def origins(body, start, passthrough_extra=(), stop_calls=(), max_nodes=4000, fo
                 push_any(y)
             return
         if isinstance(x, int):
-            work.append(x)
+            work.append((x, None))
             return
         if "k" in x:  # operand
             if x["k"] == "const":
@@ -74,11 +74,11 @@ def origins(body, start, passthrough_extra=(), stop_calls=(), max_nodes=4000, fo
             p = op_place(x)
             if p is not None:
                 note_place(p)
-                work.append(p["l"])
+                work.append((p["l"], _first_field(p)))
             return
         if "l" in x:  # place
             note_place(x)
-            work.append(x["l"])
+            work.append((x["l"], _first_field(x)))
 
     def note_place(p):
         # loads through pointers of named fields are recorded as 'field' origins too
@@ -94,12 +94,14 @@ def origins(body, start, passthrough_extra=(), stop_calls=(), max_nodes=4000, fo
     seen = set()
     sites = []
     push_any(start)
+    seen_pairs = set()
     while work:
-        l = work.pop()
-        if l in seen:
+        l, want = work.pop()
+        if (l, want) in seen_pairs or (l, None) in seen_pairs:
             continue
+        seen_pairs.add((l, want))
         seen.add(l)
-        if len(seen) > max_nodes:
+        if len(seen_pairs) > max_nodes:
             break
         if 1 <= l <= body.arg_count:
             name = body.local_name(l)
@@ -109,6 +111,11 @@ def origins(body, start, passthrough_extra=(), stop_calls=(), max_nodes=4000, fo
                 outs.add(Origin("upvar", "*"))
             # arguments may also be reassigned; keep following defs
         for site, kind, node in body.defs.get(l, []):
+            if kind == "part" and want is not None:
+                # a store into another named field of the same aggregate does not define the field read
+                wf = _first_field(node["place"]) if node.get("k") == "assign" else _first_field(node.get("dest", {"p": []}))
+                if wf is not None and wf != want:
+                    continue
             sites.append(site)
             if kind in ("assign", "part") and node["k"] == "assign":
                 rv = node["rv"]
@@ -130,6 +137,13 @@ def origins(body, start, passthrough_extra=(), stop_calls=(), max_nodes=4000, fo
                 else:
                     outs.add(Origin("call", cn, site))
     return outs, seen, sites
+
+
+def _first_field(p):
+    for e in p.get("p", []):
+        if isinstance(e, dict) and "f" in e:
+            return e.get("n") or str(e["f"])
+    return None
 
 
 def origin_calls(outs):
